@@ -34,10 +34,12 @@ contract("environment:JSONPathEnvironment._function_return_type",
     unfold=["wf_env", "wf_registry", "wf_func"],
     ensures=["result == func_return(expr, self)"], raises=[], props=["C05"])
 
-contract("environment:JSONPathEnvironment.check_well_typedness", heavy=True,
+contract("environment:JSONPathEnvironment.check_well_typedness",
     requires=["wf_env(self)", "wf_func(func)", "is_arr(args)",
-              "all(isinstance(a, Expression) and wf_expr(a, self) for a in seq(args))", "isinstance(token, Token)"],
-    unfold=["wf_func", "wf_query", "wf_env", "wf_registry", "wf_call_e"],
+              "all(isinstance(a, Expression) and wf_expr(a, self) and not isinstance(a, FilterExpression) for a in seq(args))",
+              "isinstance(token, Token)"],
+    unfold=["wf_func", "wf_query", "wf_env", "wf_registry", "wf_call_e"], hide=["singular"],
+    note="FilterExpression is the wrapper of a whole filter selector (built in parse_filter_selector only), never an argument",
     raises_iff=[("JSONPathTypeError",
                  "len(args) != len(func.arg_types) or any(not arg_ok(seq(func.arg_types)[j], seq(args)[j], self) for j in range(len(args)))")],
     loops={1: ["len(args) == len(func.arg_types)", "all(arg_ok(seq(func.arg_types)[j], seq(args)[j], self) for j in range(i1))"]},
@@ -45,7 +47,7 @@ contract("environment:JSONPathEnvironment.check_well_typedness", heavy=True,
 
 contract("environment:JSONPathEnvironment.validate_function_extension_signature",
     requires=["wf_env(self)", "isinstance(token, Token)", "is_str(token.value)", "is_arr(args)",
-              "all(isinstance(a, Expression) and wf_expr(a, self) for a in seq(args))"],
+              "all(isinstance(a, Expression) and wf_expr(a, self) and not isinstance(a, FilterExpression) for a in seq(args))"],
     unfold=["wf_env", "wf_registry"],
     ensures=["result == args"],
     raises_iff=[("JSONPathNameError", "not has_key(self.function_extensions, str_of(token.value))"),
